@@ -44,6 +44,9 @@ func c17Configs(thorough bool) (cfgs []poolCfg, bounds []int) {
 		add(poolCfg{Min: sz[0], Max: sz[1], EM: engine.SortModel, Method: "Execute", Clients: [][]reqSpec{{ok, ok}, {ok, pn}}}, b)
 		add(poolCfg{Min: sz[0], Max: sz[1], EM: engine.SortModel, Method: "ExecuteRulesWithSpecifiedEM", Clients: [][]reqSpec{{ok}, {er}, {ok}, {ok}}}, b)
 	}
+	// M+2 clients: two requests wait at the same time while instances come back
+	add(poolCfg{Min: 2, Max: 3, EM: engine.SortModel, Method: "Execute", Clients: [][]reqSpec{{ok}, {ok}, {ok}, {ok}, {ok}}}, b)
+	add(poolCfg{Min: 1, Max: 3, EM: engine.SortModel, Method: "Execute", Clients: [][]reqSpec{{ok}, {ok}, {ok}, {ok}, {ok}}}, b)
 	if thorough {
 		add(poolCfg{Min: 2, Max: 4, EM: engine.SortModel, Method: "Execute", Clients: [][]reqSpec{{ok}, {pn}, {ok}, {er}, {ok}}}, 2)
 		add(poolCfg{Min: 3, Max: 4, EM: engine.SortModel, Method: "Execute", Clients: [][]reqSpec{{ok, ok}, {ok}, {ok}, {ok}}}, 2)
@@ -90,7 +93,7 @@ func init() {
 		BudgetQuick: 170 * time.Second,
 		BudgetThor:  30 * time.Minute,
 		Kind:        "schedules",
-		Rule: "pools (1,2), (2,3), (1,3) [thorough also (2,4),(3,4)]: M+1 clients x 1 request and M clients x 2 requests through Execute / ExecuteRulesWithSpecifiedEM with every fault subset of size <=1 (2) (injected panic, rule error), every schedule with <=2 (thorough 3) deviations from the default scheduler (delay bounding) incl. the busy-wait loop (fair yield) and the asynchronous put goroutines; " +
+		Rule: "pools (1,2), (2,3), (1,3) [thorough also (2,4),(3,4)]: M+1 (and M+2) clients x 1 request and M clients x 2 requests through Execute / ExecuteRulesWithSpecifiedEM with every fault subset of size <=1 (2) (injected panic, rule error), every schedule with <=2 (thorough 3) deviations from the default scheduler (delay bounding) incl. the busy-wait loop (fair yield) and the asynchronous put goroutines; " +
 			"plus every one of the 24 execute methods x applicable execution models with ok/panicking/failing requests; after quiescence a conservation phase holds max requests inside a rule simultaneously (a lost instance = hang verdict). Oracle: in-flight rule bodies <= max, every request returns, errors only for a request's own faults, every rule body runs once",
 		Assume:  []string{"injected functions terminate", "sequentially consistent memory (races are C19's subject)", "a fresh pool is constructed per execution"},
 		Run:     func(c *hx.Ctx) { cfgs, b := c17Configs(c.Thorough()); runPoolConfigs(c, "C17", cfgs, b) },
